@@ -15,6 +15,7 @@ mod gen_safety;
 mod replay;
 mod gen_tf;
 mod gen_yuv;
+mod srcs;
 mod util;
 
 use std::path::PathBuf;
